@@ -242,7 +242,14 @@ pub fn run() {
                                 _ => vec![],
                             };
                             raw.sort();
-                            format!("insts {} all={}", if v.is_empty() { "-".to_string() } else { v.join(",") }, if raw.is_empty() { "-".to_string() } else { raw.join(",") })
+                            // the same question through the other observation point: QueryServiceInfo (gRPC query / subscribe)
+                            let mut si: Vec<String> = match a.send(NamingCmd::QueryServiceInfo(skey(kv(&ws, "svc")), "".to_string(), ho)).await {
+                                Ok(Ok(NamingResult::ServiceInfo(info))) => info.hosts.unwrap_or_default().iter().map(|i| format!("{}:{}", i.ip, i.port)).collect(),
+                                _ => vec!["err".to_string()],
+                            };
+                            si.sort();
+                            format!("insts {} all={} sinfo={}", if v.is_empty() { "-".to_string() } else { v.join(",") }, if raw.is_empty() { "-".to_string() } else { raw.join(",") },
+                                if si.is_empty() { "-".to_string() } else { si.join(",") })
                         }
                         _ => "err".to_string(),
                     }
